@@ -67,17 +67,25 @@ theorem notgt (last : Option Nat) (n : Nat) (h : ∀ l, last = some l → l ≤ 
   | none => rfl
   | some l => have := h l rfl; simp; omega
 
+theorem OKI_setRepository (b : Builder) (r : RepoMeta) (h : OKI b) :
+    OKI { b with groups := b.groups ++ [(r, [])] } := by
+  intro g hg d hd
+  simp only at hg ⊢
+  rcases List.mem_append.1 hg with h1 | h1
+  · exact h g h1 d hd
+  · simp only [List.mem_singleton] at h1; subst h1; cases hd
+
 theorem copyDocs_spec (sh : Shard) :
     ∀ (ds : List Doc) (last : Option Nat) (b : Builder), DocsOk sh ds →
-      ds.Pairwise (fun a c => a.repo ≤ c.repo) → (∀ l, last = some l → ∀ d ∈ ds, l ≤ d.repo) → BI b → NE b →
+      ds.Pairwise (fun a c => a.repo ≤ c.repo) → (∀ l, last = some l → ∀ d ∈ ds, l ≤ d.repo) → BI b → NE b → OKI b →
       (∀ l, last = some l → ∃ r pre ds0, sh.repos[l]? = some r ∧ r.tomb = false ∧ b.groups = pre ++ [(r, ds0)]) →
-      ∃ b', copyDocs sh ds last b = some b' ∧ BI b' ∧ NE b' ∧ bflat b' = bflat b ++ ds.filterMap (flatDoc sh) ∧
+      ∃ b', copyDocs sh ds last b = some b' ∧ BI b' ∧ NE b' ∧ OKI b' ∧ bflat b' = bflat b ++ ds.filterMap (flatDoc sh) ∧
         b'.groups.map (·.1) = b.groups.map (·.1) ++ started sh ds last := by
   intro ds
   induction ds with
-  | nil => intro last b _ _ _ hbi hne _; exact ⟨b, rfl, hbi, hne, by simp, by simp [started]⟩
+  | nil => intro last b _ _ _ hbi hne hoki _; exact ⟨b, rfl, hbi, hne, hoki, by simp, by simp [started]⟩
   | cons d ds ih =>
-    intro last b hok hpw hlast hbi hne hgrp
+    intro last b hok hpw hlast hbi hne hoki hgrp
     obtain ⟨r, hr, hdoc⟩ := hok d (by simp)
     have hok' : DocsOk sh ds := fun d' hd' => hok d' (List.mem_cons_of_mem _ hd')
     rw [List.pairwise_cons] at hpw
@@ -97,7 +105,7 @@ theorem copyDocs_spec (sh : Shard) :
       · rw [if_pos hsame, if_pos hsame]
         obtain ⟨r', pre, ds0, hr', _, hg⟩ := hgrp d.repo hsame
         rw [hr] at hr'; cases hr'
-        obtain ⟨b2, ds', hadd, hbi2, hfl2, hg2, hds'⟩ := add_spec sh.langs b pre r ds0 hg hbi d hdoc'
+        obtain ⟨b2, ds', hadd, hbi2, hfl2, hg2, hds', hoki2⟩ := add_spec sh.langs b pre r ds0 hg hbi d hdoc'
         simp only [hadd]
         have hne2 : NE b2 := by
           intro g hgm
@@ -105,9 +113,9 @@ theorem copyDocs_spec (sh : Shard) :
           rcases List.mem_append.1 hgm with h | h
           · exact hne g (by rw [hg]; exact List.mem_append_left _ h)
           · simp only [List.mem_singleton] at h; subst h; exact hds'
-        obtain ⟨b', hc, hbi', hne', hfl', hrep'⟩ := ih (some d.repo) b2 hok' hpw.2 hnext hbi2 hne2
+        obtain ⟨b', hc, hbi', hne', hoki', hfl', hrep'⟩ := ih (some d.repo) b2 hok' hpw.2 hnext hbi2 hne2 (hoki2 hoki)
           (by intro l hl; cases hl; exact ⟨r, pre, ds', hr, ht, hg2⟩)
-        refine ⟨b', hc, hbi', hne', ?_, ?_⟩
+        refine ⟨b', hc, hbi', hne', hoki', ?_, ?_⟩
         · rw [hfl', hfl2]; simp
         · rw [hrep', hg2, hg]; simp
       · rw [if_neg hsame, if_neg hsame]
@@ -117,7 +125,7 @@ theorem copyDocs_spec (sh : Shard) :
         unfold Builder.setRepository
         have hlen : ¬ r.branches.length > 64 := by have := hdoc'.br_len; omega
         simp only [hlen, if_false]
-        obtain ⟨b2, ds', hadd, hbi2, hfl2, hg2, hds'⟩ :=
+        obtain ⟨b2, ds', hadd, hbi2, hfl2, hg2, hds', hoki2⟩ :=
           add_spec sh.langs { b with groups := b.groups ++ [(r, [])] } b.groups r [] rfl
             (BI_setRepository b r hbi ht) d hdoc'
         simp only [hadd]
@@ -127,15 +135,16 @@ theorem copyDocs_spec (sh : Shard) :
           rcases List.mem_append.1 hgm with h | h
           · exact hne g h
           · simp only [List.mem_singleton] at h; subst h; exact hds'
-        obtain ⟨b', hc, hbi', hne', hfl', hrep'⟩ := ih (some d.repo) b2 hok' hpw.2 hnext hbi2 hne2
+        obtain ⟨b', hc, hbi', hne', hoki', hfl', hrep'⟩ := ih (some d.repo) b2 hok' hpw.2 hnext hbi2 hne2
+          (hoki2 (OKI_setRepository b r hoki))
           (by intro l hl; cases hl; exact ⟨r, b.groups, ds', hr, ht, hg2⟩)
-        refine ⟨b', hc, hbi', hne', ?_, ?_⟩
+        refine ⟨b', hc, hbi', hne', hoki', ?_, ?_⟩
         · rw [hfl', hfl2, bflat_setRepository]; simp
         · rw [hrep', hg2]; simp
     · -- tombstoned: skipped
       simp only [if_true]
       rw [hfd, ht]
       simp only [if_true]
-      exact ih last b hok' hpw.2 (fun l hl d' hd' => hlast l hl d' (List.mem_cons_of_mem _ hd')) hbi hne hgrp
+      exact ih last b hok' hpw.2 (fun l hl d' hd' => hlast l hl d' (List.mem_cons_of_mem _ hd')) hbi hne hoki hgrp
 
 end ZoektModel.C16
